@@ -27,10 +27,10 @@ class MysqlStream:
     async def read(self) -> bytes:
         data = b""
         while True:
-            header = await self.reader.read(4)
-
-            if not header:
-                raise ConnectionClosed()
+            try:
+                header = await self.reader.readexactly(4)
+            except asyncio.IncompleteReadError as e:
+                raise ConnectionClosed() from e
 
             i = struct.unpack("<I", header)[0]
             payload_length = i & 0x00FFFFFF
